@@ -12,7 +12,7 @@ from simkit.pipe import FRONTENDS, open_frontend
 
 ID = "C09"
 LEVEL = "exploration"
-RUNS = {"quick": 30000, "thorough": 1000000}
+RUNS = {"quick": 60000, "thorough": 1500000}
 RULE = ("valid byte strings (real writer and reference encoder; delimited and not; leading empty frames) "
         "delivered through every channel front end under tape-chosen read sizes to every parse entry point; "
         "oracle = result from io.BytesIO; non-trivial = >=1 short read happened and >=2 items; distinct = distinct "
